@@ -634,6 +634,18 @@ var c13TripEdits = []tripEdit{
 			e.Delay = &v
 		})
 	}},
+	{"event-delay+2^32s", func(t *rapid.T, m *H13Trip) bool {
+		// two delays that agree in their low 32 bits when counted in seconds
+		return editEventField(t, m, func(e *H13Event) {
+			v := int64(1) << 32
+			if e.Delay != nil && *e.Delay < 1<<32 {
+				v = *e.Delay + 1<<32
+			} else if e.Delay != nil {
+				v = *e.Delay - 1<<32
+			}
+			e.Delay = &v
+		})
+	}},
 	{"event-unc-nil-zero", func(t *rapid.T, m *H13Trip) bool {
 		return editEventField(t, m, func(e *H13Event) {
 			if e.Unc == nil {
